@@ -19,7 +19,9 @@ request grammar (one line, 12 tokens):
     ctor    dense  a=M b=N data=int matrix
             coo    a=M b=N data=rows i,j,v of the stored entries
             edges  a=n_nodes|none data=rows i,j
-            igraph a=N data=rows i,j  weights=vertex attribute  attr=edge values
+            igraph a=N data=rows i,j in the order (and orientation) of the listing = order of
+                   the edge ids  weights=vertex attribute  attr=edge values in that order
+                   (cls net: FromIGraph / Network.Load; spatial / geo: their Load)
     ops     comma list of copy ucopy pcopy saveload saveload_gml loadspatial
             loadspatial_gml loadgeo loadgeo_gml edgelist, the statements of a history on
             the live object  setw=a_b_k setwnone setattr[2|3]=a_b_c_k delattr[2|3] setadj=a_b_c
@@ -27,7 +29,9 @@ request grammar (one line, 12 tokens):
             (setattr / setattr2 / setattr3 act on the names link_weights / corr / aux_1)
 answer: N|n_links|density|adjacency|graph edges|weights|total|mean|link_attribute(link_weights)|
         node_weight_nsi stored on the embedded graph object|link_attribute(corr)|
-        link_attribute(aux_1)|graph.es.attributes() in order      or raise:<Exception>
+        link_attribute(aux_1)|graph.es.attributes() in order|
+        graph.es[link_weights] as i,j,value listed by edge|the same for corr|for aux_1|
+        average_link_attribute(link_weights)|average_link_attribute(corr)   or raise:<Exception>
 """
 import contextlib
 import io
@@ -92,6 +96,20 @@ def canon_quotient(x, num, den):
     if den != 0 and x == x and abs(x) != float("inf"):
         q = Fraction(num) / den
         if abs(Fraction(x) - q) <= Fraction(1, 10 ** 12) * abs(q):
+            return q
+    return Fraction(x) if x == x and abs(x) != float("inf") else x
+
+
+def canon_mean(x, row, n):
+    """`x` is the float mean of a matrix row whose reported (exact) entries are `row`: if it
+    agrees with sum(row)/n within 1e-12 of the row's mean magnitude sum(|row|)/n — the text
+    formats perturb every entry by < 2**-48 relative, and entries of opposite sign may cancel —
+    report the exact quotient, otherwise the float itself (stated tolerance of the comparison)."""
+    x = float(x)
+    if n != 0 and x == x and abs(x) != float("inf"):
+        q = sum(row, Fraction(0)) / n
+        scale = sum((abs(v) for v in row), Fraction(0)) / n
+        if abs(Fraction(x) - q) <= Fraction(1, 10 ** 12) * scale:
             return q
     return Fraction(x) if x == x and abs(x) != float("inf") else x
 
@@ -553,7 +571,7 @@ def observe(net):
     for key, mk, name in (("avg", "link_attribute", ATTR), ("avg2", "link_attribute2", ATTR2)):
         try:
             av = net.average_link_attribute(name)
-            o[key] = [canon_quotient(x, sum(row, Fraction(0)), N) for x, row in zip(av, o[mk])] \
+            o[key] = [canon_mean(x, row, N) for x, row in zip(av, o[mk])] \
                 if o[mk] is not None and len(av) == N else [Fraction(float(x)) for x in av]
         except KeyError:
             o[key] = None
@@ -756,11 +774,31 @@ def close(a, b):
         return False
 
 
+def close_mean(a, b, rows):
+    if a is None or b is None:
+        return a is None and b is None
+    if len(a) != len(b):
+        return False
+    try:
+        for x, y, row in zip(a, b, rows):
+            scale = sum((abs(v) for v in row), Fraction(0)) / max(len(row), 1)
+            if abs(Fraction(x) - Fraction(y)) > Fraction(1, 10 ** 9) * scale:
+                return False
+    except (TypeError, ValueError, OverflowError):
+        return False
+    return True
+
+
 def first_difference(o, e):
     for k in ["N", "directed", "n_links", "link_density", "adjacency", "sp_A", "graph",
               "node_weights", "total_node_weight", "mean_node_weight", "link_attribute",
-              "link_attribute2", "link_attribute3", "gvw", "es", "es2", "es3", "avg", "avg2"]:
+              "link_attribute2", "link_attribute3", "gvw", "es", "es2", "es3"]:
         if k in e and not close(o[k], e[k]):
+            return k
+    # row means: tolerance relative to the mean magnitude of the specified row (entries of
+    # opposite sign may cancel, and a text format perturbs each entry by < 2**-48 relative)
+    for k, mk in (("avg", "link_attribute"), ("avg2", "link_attribute2")):
+        if k in e and not close_mean(o[k], e[k], e[mk]):
             return k
     if "grid" in e:
         g = o.get("grid")
@@ -1232,7 +1270,10 @@ def run(ctx):
                 "(empty / single link / sparse / half / dense / complete / with isolated nodes) on "
                 "up to %d nodes, each through dense list, ndarray, scipy csc/csr/coo/lil/dok, edge "
                 "lists (one / other / mixed / both orientations, repeated entries, n_nodes given or "
-                "inferred), sparse matrices with stored zeros, igraph object, copy, undirected_copy, "
+                "inferred), sparse matrices with stored zeros, igraph object (edge ids sorted or in no "
+                "particular order, undirected edges in either orientation), files written by igraph "
+                "itself or by hand (edge list) loaded by Network / SpatialNetwork / GeoNetwork.Load, "
+                "set_link_attribute on the adopted object, copy, undirected_copy, "
                 "permuted_copy(identity), edge_list() round trip, save->Load in "
                 "graphml/graphmlz/pickle/gml (format given or detected), histories of 2-8 statements "
                 "on one live object (reassign weights / attribute / adjacency, save, load, copy, "
@@ -1256,7 +1297,7 @@ def run(ctx):
                     gs = rng.sample(gs, 64 if quick else 400)
                 specs += [(N, d, g, N <= 2 or rng.random() < (0.15 if quick else 0.3)) for g in gs]
         kinds = ["empty", "single", "sparse", "half", "dense", "full", "isolated"]
-        for _ in range(110 if quick else 900):
+        for _ in range(110 if quick else 700):
             N = rng.randrange(2, 13 if quick else 31)
             d = rng.random() < 0.5
             specs.append((N, d, random_graph(rng, N, d, rng.choice(kinds)),
